@@ -185,7 +185,7 @@ func rollbackProbe(h *Hist, step int) bool {
 func init() {
 	Register(&sim.Check{
 		ID: "C05", Level: "exploration", Run: runC05,
-		Rule: "C01 histories (confirmed); after most steps one further generated transaction (any edit kinds, 1-3 intents, timeout 1/5/30/600 s) is applied and then ended by TransactionCancel or by letting the fake clock pass its timeout. The intended store dump must equal the snapshot taken before the transaction and every device path the transaction's traffic touched must have its old value or absence. Non-trivial = the transaction edits a shadowed intent or has several intents; distinct = signature (cancel/expiry, edit kinds, shadowed, #live).",
+		Rule: "C01 histories (confirmed); after most steps one further generated transaction (any edit kinds, 1-3 intents, timeout 1/5/30/600 s) is applied and then ended by TransactionCancel or by letting the fake clock pass its timeout. Device: direct or the real gnmiTarget (json / json_ietf). The intended store dump must equal the snapshot taken before the transaction and every device path the transaction's traffic touched must have its old value or absence. Non-trivial = the transaction edits a shadowed intent or has several intents; distinct = signature (cancel/expiry, edit kinds, shadowed, #live).",
 		Real: realCore, Stub: stubCore,
 		RequiredProbes: []string{"rb-shadowed", "rb-multi-intent", "rb-edit-create", "rb-edit-delete", "rb-edit-reprio"},
 		QuickSeconds:   35, ThoroughSeconds: 600,
